@@ -74,4 +74,78 @@ harnesses! {
         check!(!unsafe { UF_OVERFLOW }, "UF table large enough");
         cover!(true, "reached");
     }
+
+    /// the credential-response pad: 42 bytes (6 blocks), info = 32-byte nonce || 21-byte label
+    fn lemma_hkdf_pad42 [unwind = 46] {
+        let prk = any_bytes::<8>();
+        let nonce = any_bytes::<32>();
+        let mut a = [0u8; 42];
+        sp::hkdf_expand(&prk, &[&nonce, b"CredentialResponsePad"], &mut a);
+        let mut b = [0u8; 42];
+        Hkdf::<MHash>::from_prk(&prk).unwrap().expand_multi_info(&[&nonce, b"CredentialResponsePad"], &mut b).unwrap();
+        check!(eq_bytes(&a, &b), "spec hkdf-expand == hkdf crate (42 bytes)");
+        cover!(true, "reached");
+    }
+
+    /// Engine self-test: CBMC 6.11's library memcpy loses a byte when a copy spans the end of a nested struct of
+    /// generic-array's tree layout (found with this harness: U42 40+2 and 39+3 failed). The driver therefore stubs
+    /// <[u8]>::copy_from_slice by an element-wise loop (vk::elementwise_copy); this harness must pass for any verdict to be trusted.
+    fn engine_selftest_ga_copy [unwind = 80] {
+        use generic_array::typenum::{U42, U48, U3, U5, U6};
+        use generic_array::GenericArray;
+        let src = any_bytes::<48>();
+        macro_rules! t { ($ty:ty, $o:expr, $k:expr, $m:literal) => {{
+            let mut x = GenericArray::<u8, $ty>::default();
+            x[$o..$o + $k].copy_from_slice(&src[..$k]);
+            let mut ok = true;
+            let mut i = 0;
+            while i < $k { ok &= x[$o + i] == src[i]; i += 1; }
+            check!(ok, $m);
+        }}; }
+        t!(U42, 40, 2, "U42 40+2");
+        t!(U42, 41, 1, "U42 41+1");
+        t!(U42, 39, 2, "U42 39+2");
+        t!(U42, 39, 3, "U42 39+3");
+        t!(U42, 32, 8, "U42 32+8");
+        t!(U42, 20, 3, "U42 20+3");
+        t!(U42, 19, 4, "U42 19+4");
+        t!(U42, 0, 2, "U42 0+2");
+        t!(U42, 1, 2, "U42 1+2");
+        t!(U48, 40, 8, "U48 40+8");
+        t!(U48, 46, 2, "U48 46+2");
+        t!(U48, 23, 2, "U48 23+2");
+        t!(U3, 0, 3, "U3 0+3");
+        t!(U3, 1, 2, "U3 1+2");
+        t!(U3, 0, 2, "U3 0+2");
+        t!(U5, 3, 2, "U5 3+2");
+        t!(U5, 4, 1, "U5 4+1");
+        t!(U5, 2, 3, "U5 2+3");
+        t!(U6, 4, 2, "U6 4+2");
+        t!(U6, 2, 4, "U6 2+4");
+        // tail copies of 8 bytes and more (library formulation)
+        t!(U42, 34, 8, "U42 34+8");
+        t!(U42, 33, 9, "U42 33+9");
+        t!(U42, 30, 12, "U42 30+12");
+        t!(U42, 21, 21, "U42 21+21");
+        {
+            use generic_array::typenum::{U35, U50, U75};
+            t!(U35, 27, 8, "U35 27+8");
+            t!(U35, 1, 34, "U35 1+34");
+            t!(U50, 42, 8, "U50 42+8");
+            t!(U50, 10, 40, "U50 10+40");
+            t!(U75, 33, 42, "U75 33+42");
+            t!(U75, 67, 8, "U75 67+8");
+        }
+        // the copy patterns HKDF-Expand produces in suite M
+        t!(U42, 0, 8, "U42 0+8");
+        t!(U42, 8, 8, "U42 8+8");
+        t!(U42, 16, 8, "U42 16+8");
+        t!(U42, 24, 8, "U42 24+8");
+        {
+            use generic_array::typenum::{U1, U8};
+            t!(U8, 0, 8, "U8 0+8");
+            t!(U1, 0, 1, "U1 0+1");
+        }
+        cover!(true, "reached");
+    }
 }
